@@ -92,7 +92,16 @@ func (w *hostileWorld) feed(proto string, input []byte, followValid bool) (state
 	// give the reader the time to consume the input
 	time.Sleep(1500 * time.Microsecond)
 	runtime.ReadMemStats(&ms2)
-	allocDelta = ms2.TotalAlloc - ms1.TotalAlloc
+	// what the harness itself allocates for the input (the in-memory connection's buffer and the tap copy, each
+	// as long as the input) is not the receiver's doing
+	noise := uint64(2 * len(input))
+	sub := func(d uint64) uint64 {
+		if d > noise {
+			return d - noise
+		}
+		return 0
+	}
+	allocDelta = sub(ms2.TotalAlloc - ms1.TotalAlloc)
 	functional := false
 	if followValid && ss.Health() {
 		// is the session still fully functional?  send a valid call and look for its reply
@@ -116,7 +125,7 @@ func (w *hostileWorld) feed(proto string, input []byte, followValid bool) (state
 		// a reader that is still busy (or blocked) after the input is exhausted: what it allocated in the
 		// meantime belongs to this input too (a hostile frame size may be buffered slowly)
 		runtime.ReadMemStats(&ms2)
-		if d := ms2.TotalAlloc - ms1.TotalAlloc; d > allocDelta {
+		if d := sub(ms2.TotalAlloc - ms1.TotalAlloc); d > allocDelta {
 			allocDelta = d
 		}
 	}
@@ -320,6 +329,12 @@ func (d *dataRun) hostileCase(c DataCase, out map[string]interface{}) {
 			"\r\nContent-Length: "+strconv.Itoa(big)+"\r\nX-Seq: 1\r\nX-Mtype: 1\r\n\r\n{\"tag\":"))
 		inputs = append(inputs, []byte("POST /t/call HTTP/1.1\r\nContent-Type: application/json\r\nContent-Length: "+strconv.Itoa(big)+
 			"\r\nContent-Length: -"+strconv.Itoa(big-10)+"\r\nX-Seq: 1\r\nX-Mtype: 1\r\n\r\n{\"tag\":"))
+	case "endlessline":
+		// a request line, a header line and a status line that never end (4 MiB without a line feed)
+		long := bytes.Repeat([]byte("A"), 4<<20)
+		inputs = append(inputs, append([]byte("POST /"), long...))
+		inputs = append(inputs, append([]byte("POST /t/call HTTP/1.1\r\nX-Long: "), long...))
+		inputs = append(inputs, append([]byte("HTTP/1.1 200 "), long...))
 	case "neglen":
 		inputs = append(inputs, []byte("POST /t/call HTTP/1.1\r\nContent-Type: application/json\r\nContent-Length: -1\r\nX-Seq: 1\r\nX-Mtype: 1\r\n\r\n{\"tag\":\"x\"}"))
 		inputs = append(inputs, []byte("POST /t/call HTTP/1.1\r\nContent-Type: application/json\r\nContent-Length: -2147483648\r\nX-Seq: 1\r\nX-Mtype: 1\r\n\r\n{\"tag\":\"x\"}"))
